@@ -316,11 +316,36 @@ func checkC03(c *km.Ctx) {
 		}
 		for _, st := range storesByField(fn, KMD+".roleRequestingCertGenParams")["Duration"] {
 			n++
-			d, isC := km.ConstInt(st.Val)
-			r.Add("R-C03-4", km.FuncName(fn), "automation certificate lifetime", posOf(c, st), "a constant, 0 < D <= 45 days", sprintf("%d ns const=%v", d, isC), isC && d > 0 && d <= roleDays)
+			// the constant 45 d, or a value proven to lie in [0, 45 d] on every path (directly or by the helper
+			// that computed it)
+			var upper func(k km.Conj, v ssa.Value, depth int) (bool, bool)
+			upper = func(k km.Conj, v ssa.Value, depth int) (bool, bool) {
+				k = s.Augment(k)
+				le, ge := proveLEConst(k, v, roleDays), km.ProveGE0(k, v)
+				if (le && ge) || depth >= 3 {
+					return le, ge
+				}
+				cases, isCall := s.ResultCases(k, v)
+				if !isCall || len(cases) == 0 {
+					return le, ge
+				}
+				aLe, aGe := true, true
+				for _, rc := range cases {
+					x, y := upper(rc.K, rc.Val, depth+1)
+					aLe, aGe = aLe && x, aGe && y
+				}
+				return le || aLe, ge || aGe
+			}
+			stt := c.F.At(st)
+			okLe, okGe := len(stt) > 0, len(stt) > 0
+			for _, k := range stt {
+				x, y := upper(k, st.Val, 0)
+				okLe, okGe = okLe && x, okGe && y
+			}
+			r.Add("R-C03-4", km.FuncName(fn), "automation certificate lifetime", posOf(c, st), "0 <= D <= 45 days on every path (the constant, or a requested value clamped to it)", sprintf("upper=%v lower=%v value=%s", okLe, okGe, clipS(km.ValStr(st.Val), 80)), okLe && okGe)
 		}
 	}
-	if n < 2 {
+	if n < 1 {
 		r.AnchorLost("R-C03-4", "Duration stores of roleRequestingCertGenParams")
 	}
 	if fn := c.MustFunc("R-C03-4", "cmd/keymasterd", "(*RuntimeState).withParamsGenerateRoleRequestingCert"); fn != nil {
